@@ -220,11 +220,11 @@ func gen(rt *rapid.T) (trial.Trial, bool) {
 	if rapid.IntRange(0, 3).Draw(rt, "hammer") == 0 || forceMode == "hammer" {
 		tr.Reps = rapid.SampledFrom([]int{2000, 20000}).Draw(rt, "hammerreps")
 		hammerLoads := false
-		names := []string{rapid.SampledFrom([]string{"Adapt", "ToXYZ", "Primaries", "From8To8", "From16", "To16", "LineariseColor", "EncodeColor", "DecodeTyped", "LoadFamily", "LoadFamily", "Profile"}).Draw(rt, "hammerop")}
+		names := []string{rapid.SampledFrom([]string{"Adapt", "ToXYZ", "Primaries", "From8To8", "From16", "To16", "LineariseColor", "EncodeColor", "DecodeTyped", "LoadFamily", "LoadFamily", "Profile", "LoadBad"}).Draw(rt, "hammerop")}
 		if names[0] == "LoadFamily" {
 			tr.Reps, hammerLoads = 300, true
 		}
-		if names[0] == "Profile" {
+		if names[0] == "Profile" || names[0] == "LoadBad" {
 			tr.Reps = 2000
 		}
 		_ = hammerLoads
@@ -259,7 +259,7 @@ func gen(rt *rapid.T) (trial.Trial, bool) {
 			k := rapid.IntRange(3, 6).Draw(rt, "stormops")
 			var ops []trial.Op
 			for len(ops) < k {
-				ops = append(ops, genOp(rt, []string{"LoadFamily", "LoadFamily", "LoadFamily", "Profile", "Load"}))
+				ops = append(ops, genOp(rt, []string{"LoadFamily", "LoadFamily", "LoadFamily", "Profile", "Load", "LoadBad", "LoadBad"}))
 			}
 			tr.Goroutines = append(tr.Goroutines, ops)
 		}
@@ -288,7 +288,7 @@ func TestC11(t *testing.T) {
 		fmt.Println("REPLAY case passed (5 fresh processes)")
 		return
 	}
-	ev.Rule("generated trial descriptions: 2..64 goroutines, GOMAXPROCS 1..16, per goroutine 1-6 operations from {From16Bit/To16Bit of every space (lazily built tables), 8-bit decode/encode, LineariseColor, EncodeColor, Linearise/EncodeImage with parallelism 1..8 on per-goroutine destinations and shared read-only sources, ConvertImageTo*, the four loaders on shared byte slices, the ICC profile reader on 12 profiles with distinct headers (with rejected headers in between), chromatic adaptation / Lab, XYZ transforms}, start shape one barrier / two waves / per-goroutine Gosched counts; an eighth are load storms (16..64 goroutines each loading 3-6 of 240 files with 80 distinct profiles, repeatedly); an eighth of the trials are crowds of 40..160 goroutines running image transforms of a 96x64 image with 2..16 workers each; three quarters of the trials put the FIRST call to the same lazily built table on >= 2 goroutines behind the same barrier. Each trial runs in a fresh process built with -race from the current tree. Oracle: race detector (exit 66) + every operation's result digest equals the digest from a sequential process running the same operation lists. non-trivial = distinct trial with a first-use collision or an image transform with parallelism > 1")
+	ev.Rule("generated trial descriptions: 2..64 goroutines, GOMAXPROCS 1..16, per goroutine 1-6 operations from {From16Bit/To16Bit of every space (lazily built tables), 8-bit decode/encode, LineariseColor, EncodeColor, Linearise/EncodeImage with parallelism 1..8 on per-goroutine destinations and shared read-only sources, ConvertImageTo*, the four loaders on shared byte slices (well-formed files, and files rejected early or late with the error text compared), the ICC profile reader on 12 profiles with distinct headers (with rejected headers in between), chromatic adaptation / Lab, XYZ transforms}, start shape one barrier / two waves / per-goroutine Gosched counts; an eighth are load storms (16..64 goroutines each loading 3-6 of 240 files with 80 distinct profiles, repeatedly); an eighth of the trials are crowds of 40..160 goroutines running image transforms of a 96x64 image with 2..16 workers each; three quarters of the trials put the FIRST call to the same lazily built table on >= 2 goroutines behind the same barrier. Each trial runs in a fresh process built with -race from the current tree. Oracle: race detector (exit 66) + every operation's result digest equals the digest from a sequential process running the same operation lists. non-trivial = distinct trial with a first-use collision or an image transform with parallelism > 1")
 	ev.Assume("the Go race detector's happens-before analysis; schedules are explored only as far as the Go scheduler varies them")
 	// phase 1: rapid only draws the trial descriptions (cheap); phase 2 executes them 8 at a time
 	type item struct {
